@@ -161,7 +161,7 @@ def work(ctx, idx):
     wr = WorkResult()
     cfg = TIERS[ctx.tier]
     rng = ctx.rng('scn', idx)
-    sc = scenario.gen_scenario(rng)
+    sc = scenario.gen_scenario(rng, want={'flavors': ['nr', 'nr', 'r', 'r', 'c99']})
     b = ctx.build(sc)
     sc_s = copy.copy(sc)
     sc_s._matchers = {}
